@@ -114,8 +114,13 @@ class World(object):
         import zmq as _zmq
         ctx = self.context
         self._patch(circus.arbiter, 'zmq', _Proxy(_zmq, Context=types.SimpleNamespace(instance=lambda: ctx)))
-        self._patch(circus.arbiter, 'select',
-                    types.SimpleNamespace(select=lambda r, w, x, t=None: (list(self.select_result), [], [])))
+        def _select(r, w_, x, t=None):
+            ready = list(self.select_result)
+            if not ready and (t is None or t > 0):
+                # select() in the loop thread with nothing ready WAITS: for ever without a timeout
+                self.clock.sleep(self.clock.watchdog + 1.0 if t is None else t)
+            return (ready, [], [])
+        self._patch(circus.arbiter, 'select', types.SimpleNamespace(select=_select))
         self._patch(circus.watcher, 'randint', lambda a, b: min(max(self.randint_value, a), b))
         # tag every spawn with the watcher it is made for (instrumentation around the real method)
         real_spawn = circus.process.Process.spawn
